@@ -1460,6 +1460,10 @@ func (m *RedisMessage) AsGeosearch() ([]GeoLocation, error) {
 			loc.Name = v.string()
 		} else {
 			info := v.values()
+			if len(info) == 0 {
+				typ := v.typ
+				return nil, fmt.Errorf("%w: redis message type %s is not a GEOSEARCH location", errParse, typeNames[typ])
+			}
 			var i int
 
 			//name
